@@ -75,8 +75,8 @@ Vote(v, x)          == "vote" \in Kinds /\ Do(Tx("vote", v, x, v, 0, 40000, 1))
 Register(x, a)      == st.reg[x] = "no" /\ Do(Tx("reg", x, "", x, a * LEMO, 130000, 1))
 TopUp(x, a)         == st.reg[x] # "no" /\ Do(Tx("topup", x, "", x, a * LEMO, 130000, 1))
 Unregister(x)       == "unreg" \in Kinds /\ Do(Tx("unreg", x, "", x, 0, 130000, 1))
-Issue(f, t, a)      == "issue" \in Kinds /\ Do(Tx("issue", f, t, f, a, 100000, 1))
-Replenish(f, t, a)  == "repl" \in Kinds /\ Do(Tx("repl", f, t, f, a, 100000, 1))
+Issue(f, t, a)      == "issue" \in Kinds /\ f \in {Ctx.issuer, "a1"} /\ Do(Tx("issue", f, t, f, a, 100000, 1))
+Replenish(f, t, a)  == "repl" \in Kinds /\ f \in {Ctx.issuer, "a1"} /\ Do(Tx("repl", f, t, f, a, 100000, 1))
 AssetTransfer(f, t, a) == "axfer" \in Kinds /\ Do(Tx("axfer", f, t, f, a, 60000, 1))
 Freeze(f, v)        == "freeze" \in Kinds /\ Do(Tx(IF v THEN "freeze" ELSE "unfreeze", f, "", f, 0, 100000, 1))
 Box(f, sf, stt, a, n, gp) ==
